@@ -373,6 +373,7 @@ func init() {
 				{Scenario: "sbuf.orders", Params: vx.P("n", "4"), Weight: 1},
 				{Scenario: "sbuf.bfs", Params: vx.P("n", "7"), Weight: 3},
 				{Scenario: "sbuf.sched", Params: vx.P("n", "3"), Bound: -1, BudgetS: 100, Weight: 4},
+				{Scenario: "sbuf.sched", Params: vx.P("n", "3", "crosscheck", "1"), Bound: 2, BudgetS: 100, Weight: 4},
 			}
 		}
 		return []vx.Job{
